@@ -522,6 +522,9 @@ def call_type(I, t: VType, args, kwargs):
     if n == "tuple":
         return VTuple(I.iterate(args[0]) if args else [])
     if n in ("set", "frozenset"):
+        if args and isinstance(args[0], VRef) and I.hobj(args[0]).kind == "symset":
+            o = I.hobj(args[0])
+            return new_symset(I, list(o.items), list(o.meta["mem"]))
         return I.new_set(I.iterate(args[0]) if args else [])
     if n == "dict":
         d = I.new_dict()
@@ -961,6 +964,9 @@ def sym_method(I, ref, o, name, args, kw):
             return NONE
         if name == "keys":
             return new_symset(I, [k for k, p, v in o.items], [p for k, p, v in o.items])
+        if name == "items":
+            from . import symlist
+            return symlist.items_view(I, ref, o)
     if o.kind == "symlist":
         from . import symlist
         return symlist.method(I, ref, o, name, args, kw)
